@@ -67,6 +67,25 @@ def named(name):
     if name == "oblique1": return crystal.Crystal(_a([1, 0], [.25, 1.125]).T, [_a(0, 0)]), 0            # 2-D, group 2
     if name == "mono": return crystal.Crystal(_a([1, 0, 0], [0, 1.125, 0], [.25, 0, 1.25]).T, [_a(0, 0, 0)]), 0   # 2/m
     if name == "tric": return crystal.Crystal(_a([1, 0, 0], [.25, 1.125, 0], [.25, .125, 1.25]).T, [_a(0, 0, 0)]), 0  # -1
+    # crystals whose sites carry a non-empty site vector basis (origin-state corrections of Lij; fix b4a4433)
+    if name == "polar3w2d":   # truly polar 2-D cell (a vector invariant under the whole point group), three Wyckoff sets on mirror lines
+        return crystal.Crystal(np.diag([1., 1.3]), [_a(0, 0), _a(.5, .37), _a(0, .6)]), 0
+    if name == "tria-disp":   # displaced (rumpled) triangular 2-site cell
+        return crystal.Crystal(_a([1., 0.5], [0., s3 / 2]), [_a(0, 0), _a(1. / 3 + 0.04, 1. / 3 + 0.04)]), 0
+    if name == "pg4":         # truly polar 2-D cell (glide only): two Wyckoff sets of two general positions
+        return crystal.Crystal(np.diag([1., 1.3]), [_a(.2, .1), _a(-.2, .6), _a(.37, .33), _a(-.37, .83)]), 0
+    if name == "p1-2d":       # no symmetry at all, spectator + two mobile sites
+        return crystal.Crystal(_a([1., .3], [0., 1.1]), [[_a(0, 0)], [_a(.1, .2), _a(.45, .63)]]), 1
+    # interstitial sites with a site vector NOT along the rotation axis that relates them (3-, 4-, 6-fold related site vectors)
+    if name == "sq-x4":    # 2-D square host, four (x,0)-type interstitials (site symmetry m, related by the 4-fold axis)
+        return crystal.Crystal(np.eye(2), [[_a(0, 0)], [_a(.3, 0), _a(-.3, 0), _a(0, .3), _a(0, -.3)]], chemistry=["M", "I"]), 1
+    if name == "cub-x6":   # cubic host, six (x,0,0)-type interstitials (site symmetry 4mm, related by the <111> three-fold axes)
+        return crystal.Crystal(np.eye(3), [[_a(0, 0, 0)], [_a(.3, 0, 0), _a(-.3, 0, 0), _a(0, .3, 0), _a(0, -.3, 0), _a(0, 0, .3), _a(0, 0, -.3)]],
+                               chemistry=["M", "I"]), 1
+    if name == "hex-x6":   # hexagonal host, six basal (x,0,0)-type interstitials related by the 6-fold axis
+        return crystal.Crystal(_a([1, 0, 0], [-.5, s3 / 2, 0], [0, 0, 1.2]).T,
+                               [[_a(0, 0, 0)], [_a(.3, 0, 0), _a(0, .3, 0), _a(-.3, -.3, 0), _a(-.3, 0, 0), _a(0, -.3, 0), _a(.3, .3, 0)]],
+                               chemistry=["M", "I"]), 1
     if name == "mono-m":   # monoclinic 2/m (unique axis z) host + interstitials ON the mirror planes z=0, z=1/2 (site symmetry m:
         # 2-D site vector basis), two Wyckoff sets
         return crystal.Crystal(_a([1, 0, 0], [.25, 1.125, 0], [0, 0, 1.25]).T,
